@@ -397,6 +397,8 @@ class Check:
               "coverage": self.cov, "assumptions": self.assumptions, "wall_s": round(self.elapsed(), 1),
               "violations": len(self.violations)}
         evdir = os.path.join(VERIF, "evidence") if REPO == "/repo" else os.path.join(BUILD, "evidence-scratch")
+        if REPO == "/repo" and not self.prop.startswith("C"):
+            evdir = os.path.join(VERIF, "evidence-extra")      # specifications beyond the listed properties (not in MANIFEST.json)
         os.makedirs(evdir, exist_ok=True)
         with open(os.path.join(evdir, self.prop + ".json"), "w") as f:
             json.dump(ev, f, indent=1, sort_keys=True)
